@@ -1,0 +1,20 @@
+//go:build verif
+
+package rtrefresh
+
+// Contracts for the routing-table refresh manager (properties C12, C14). Comment-only.
+
+/*@
+# liveness probe of one member: it is removed exactly when connecting or the
+# probe request failed (whatever the reason, including the probe timeout)
+funclit 0 in (r *RtRefreshManager) pingAndEvictPeers(ctx context.Context)
+  props C12
+  ghostvar $cerr error = nil
+  ghostvar $perr error = nil
+  ghostvar $removed bool = false
+  ensures [internal-evicted-iff-failed] iff($removed, $cerr != nil || $perr != nil)
+  ensures [accounted] tagged("wgdone:wg")
+  ghost at call(Connect): $cerr = $ret0; assert($arg1.ID == ps.Id)
+  ghost at call(refreshPingFnc): $perr = $ret0; assert($arg1 == ps.Id && $cerr == nil)
+  ghost at call(RemovePeer): $removed = true; assert($arg0 == ps.Id)
+@*/
